@@ -202,7 +202,8 @@ def time_major(a2):
 
 class C06(Family):
     prop = "C06"
-    extra_modules = ["CtrlVerif.Props.C06Real"]      # realisations, long division, step/impulse
+    extra_modules = ["CtrlVerif.Props.C06Real",      # realisations, long division, step/impulse
+                     "CtrlVerif.Props.C06Exp"]       # continuous time over R: exp, ODE, FOH sampling
     externals = ["scipy.linalg.expm (its values are parameters of the continuous-time model; for "
                  "nilpotent A they are replaced by exact finite sums)",
                  "scipy.signal.dlsim / scipy.interpolate.make_interp_spline(k=1) (the model contains "
@@ -217,9 +218,9 @@ class C06(Family):
         "the array); an ordinary signal mixed with a tiny / huge one: the tolerance is the rounding-error "
         "estimate of the larger part (4 x 10^3 x steps x growth x scale x 2^-52; observed worst error "
         "3e-4 of it in 16 500 cases), so a dropped contribution of the smaller signal is visible",
-        "that expm returns the matrix exponential and that the first-order-hold series solves the ODE "
-        "with piecewise linear input are not theorems (partial); the block structure of the powers of "
-        "the augmented matrix is",
+        "scipy.linalg.expm returns the matrix exponential (contract, not a theorem); GIVEN that, the "
+        "first-order-hold recursion returns the samples of the solution of x'=Ax+Bu for piecewise "
+        "linear input (Props/C06Exp.lean, over the reals); for nilpotent A nothing is assumed",
         "np.allclose / np.isclose in the grid checks are modelled as exact tests: grids are generated "
         "exactly equally spaced (as rationals) or clearly not, spacings exact multiples of the "
         "sampling time or clearly not",
